@@ -296,7 +296,7 @@ def gen_wm_hlle_oracle(rng):
 
 
 # ---- scaled copies: the unit of length is free.  2^-60 .. 2^60 covers "micrometres in metres" to astronomical units
-KSCALES = [-60, -40, -30, -20, 20, 30, 40, 60]
+KSCALES = [-60, -52, -44, -36, 36, 48, 60]
 
 
 def with_kscale(rng, c):
